@@ -126,8 +126,23 @@ func baseName(fn *ssa.Function) string {
 	return n
 }
 
+// pruneCalls: void, expensive callees that are skipped when the solver shows
+// that their call can have no effect (guard ∧ window infeasible).
+var pruneCalls = map[string]bool{
+	"(*" + xsyncPath + ".Map).resize":          true,
+	"(*" + xsyncPath + ".MapOf).resize":        true,
+	"(*" + xsyncPath + ".Map).waitForResize":   true,
+	"(*" + xsyncPath + ".MapOf).waitForResize": true,
+}
+
 func (x *Exec) callFn(f *frame, ins ssa.Instruction, fn *ssa.Function, args, binds []Value, g *Term, path string) Value {
 	name := baseName(fn)
+	if pruneCalls[name] && fn.Signature.Results().Len() == 0 {
+		if !x.feasible(x.act(g)) {
+			x.PrunedCalls++
+			return nil
+		}
+	}
 	if r, ok := x.stub(f, ins, fn, name, args, g); ok {
 		return r
 	}
